@@ -857,6 +857,7 @@ def run_coq(layer_import, ty, fn_bad, fn_cls, terms, d, stem, per_shard):
     return mism, classes, errors
 
 
+@vflib.serialized("run_cli")
 def run_cli(tier, seed):
     """K-cli + O-C13.  returns dict(rows, mismatches, classes, errors, fails {idx: [(clause, cls, text)]})"""
     sz = sizes(tier)
@@ -1125,6 +1126,7 @@ def run_tree_corpus(hcli, base, path):
     return rows
 
 
+@vflib.serialized("run_tree")
 def run_tree(tier, seed):
     sz = sizes(tier)
     hcli, err = build_all()
